@@ -131,9 +131,62 @@ func checkPacketCodec(c *mon.Ctx, stage string, idx int64, p *astits.Packet) {
 		}
 		c.Count("packets_reemitted")
 	}
+	// (4) the same packet with reserved bytes at the end of its adaptation extension (ISO 13818-1 2.4.3.4: the extension ends with
+	// "for (i = 0; i < N; i++) reserved", counted by adaptation_field_extension_length): k of the stuffing bytes that follow the
+	// extension are moved inside it by raising its length byte. The packet says the same, and NextPacket + WritePacket must
+	// give it back byte for byte
+	if a := p.AdaptationField; a != nil && a.HasAdaptationExtensionField && a.StuffingLength > 0 && !a.IsOneByteStuffing {
+		pos := 6
+		if a.HasPCR {
+			pos += 6
+		}
+		if a.HasOPCR {
+			pos += 6
+		}
+		if a.HasSplicingCountdown {
+			pos++
+		}
+		if a.HasTransportPrivateData {
+			pos += 1 + len(a.TransportPrivateData)
+		}
+		k := 1 + int(mon.HashBytes("resv", ref)%3)
+		if k > a.StuffingLength {
+			k = a.StuffingLength
+		}
+		patched := append([]byte{}, ref...)
+		patched[pos] += byte(k)
+		d2 := map[string]any{"packet": mon.Hex(patched, 188), "reserved_bytes": k}
+		dmx := astits.NewDemuxer(context.Background(), bytes.NewReader(patched), astits.DemuxerOptPacketSize(188))
+		var got2 *astits.Packet
+		var err2 error
+		if pn, v, st := mon.Guarded(func() { got2, err2 = dmx.NextPacket() }); pn {
+			c.Violate("C11/parse/panic", stage, idx, fmt.Sprintf("%v\n%s", v, st), d2)
+			return
+		}
+		c.Count("packets_with_reserved_bytes_in_the_extension")
+		if err2 != nil {
+			c.Violate("C11/parse/error-on-conformant-packet:extension-reserved-bytes", stage, idx, err2.Error(), d2)
+		} else if df := mon.Diff(got2, want, extReservedIgnore); df != "" {
+			c.Violate("C11/parse/field-differs:"+fieldOf(df)+":extension-reserved-bytes", stage, idx, "library vs reference decoding: "+df, d2)
+		} else {
+			out2, n2, werr2, pan2 := muxWritePacket(got2)
+			switch {
+			case pan2 != "":
+				c.Violate("C11/reemit/panic", stage, idx, pan2, d2)
+			case werr2 != nil:
+				c.Violate("C11/reemit/error:extension-reserved-bytes", stage, idx, werr2.Error(), d2)
+			case n2 != 188 || !bytes.Equal(out2, patched):
+				c.Violate("C11/reemit/bytes-differ:extension-reserved-bytes", stage, idx, fmt.Sprintf("n=%d\nre-emitted %x\noriginal   %x\nfirst difference at byte %d", n2, out2, patched, firstDiff(out2, patched)), d2)
+			}
+		}
+	}
 	nontrivial := p.Header.HasAdaptationField || p.Header.TransportErrorIndicator || p.Header.TransportPriority || p.Header.TransportScramblingControl != 0
 	c.Case(mon.HashBytes("pkt", ref), nontrivial)
 }
+
+// what differs by construction when stuffing bytes are counted as reserved bytes of the extension
+var extReservedIgnore = &mon.EqOpt{Ignore: map[string]bool{"PacketAdaptationField.IsOneByteStuffing": true, "PacketAdaptationField.StuffingLength": true,
+	"PacketAdaptationExtensionField.Length": true, "PacketAdaptationExtensionField.ReservedLength": true}}
 
 func afForm(p *astits.Packet) string {
 	a := p.AdaptationField
